@@ -367,6 +367,12 @@ func (s *EtcdStore) UpdateTopicConfig(ctx context.Context, cfg *metadatapb.Topic
 
 // CreatePartitions expands a topic and writes new partition state entries.
 func (s *EtcdStore) CreatePartitions(ctx context.Context, topic string, partitionCount int32) error {
+	// Hold persistMu from the in-memory update to the snapshot write (as CreateTopic
+	// and DeleteTopic do): a snapshot refresh in between would drop the new partitions
+	// from memory and the write below would then persist the old partition count.
+	s.persistMu.Lock()
+	defer s.persistMu.Unlock()
+
 	meta, err := s.metadata.Metadata(ctx, []string{topic})
 	if err != nil {
 		return err
@@ -382,7 +388,7 @@ func (s *EtcdStore) CreatePartitions(ctx context.Context, topic string, partitio
 		return err
 	}
 	// Read new partition metadata before persisting. The snapshot watcher can
-	// refresh in-memory state from etcd while persistSnapshot runs, so a later
+	// refresh in-memory state from etcd after the lock is released, so a later
 	// Metadata call may see a stale partition count and panic on index access.
 	updated, err := s.metadata.Metadata(ctx, []string{topic})
 	if err != nil {
@@ -395,7 +401,7 @@ func (s *EtcdStore) CreatePartitions(ctx context.Context, topic string, partitio
 	if int32(len(newPartitions)) != partitionCount-current {
 		return fmt.Errorf("metadata: expected %d new partitions, got %d", partitionCount-current, len(newPartitions))
 	}
-	if err := s.persistSnapshot(ctx); err != nil {
+	if err := s.persistSnapshotLocked(ctx); err != nil {
 		return err
 	}
 	for _, part := range newPartitions {
@@ -550,12 +556,6 @@ func (s *EtcdStore) refreshSnapshot(ctx context.Context) error {
 
 func snapshotKey() string {
 	return "/kafscale/metadata/snapshot"
-}
-
-func (s *EtcdStore) persistSnapshot(ctx context.Context) error {
-	s.persistMu.Lock()
-	defer s.persistMu.Unlock()
-	return s.persistSnapshotLocked(ctx)
 }
 
 func (s *EtcdStore) persistSnapshotLocked(ctx context.Context) error {
